@@ -44,9 +44,18 @@ LEVEL_TEXT = ("Lean theorems for every label list (no bound) of an LTS of watche
               "queueing.watcher under virtual time incl. arrivals exactly on the idle deadline in both tie orders; the keys are "
               "the ones the real watcher uses (observed at the queues, not re-computed); two watchers in one loop are two "
               "instances of the LTS (each trace replayed on its own); the watcher must come back to the stream within the "
-              "same virtual instant. This kopf has "
+              "same virtual instant. The hand-over INSIDE Scheduler.spawn() (put into _pending_coros under _condition's lock, "
+              "spawner and cleaner needing the same lock) is a second small LTS (C01_Sched.lean, parameter cap = the bound of "
+              "the pending queue as Scheduler.__init__ builds it): for the unbounded queue spawn() never suspends in the locked "
+              "section and a free slot is always handed on (sched_spawn_never_blocks, sched_free_slot_is_used: what makes "
+              "`insert` atomic); for ANY bound a put() that once waits for a place waits for ever (sched_blocked_put_is_forever; "
+              "sched_bounded_queue_deadlock_witness). Tie D of that model: the real aiotasks.Scheduler driven directly (spawn "
+              "calls, ending jobs; [pending, running, lock held, spawn() calls returned] after every operation), cap read off the "
+              "real queue; plus in every watcher run: the scheduler's lock is never seen held from a segment outside the scheduler. This kopf has "
               "no batching in worker() (batch_window is deprecated and ignored), so 'processed' means every single event.")
-TIE = "A: every atomic segment of the real watcher/worker/Scheduler logged as a label + state snapshot, replayed by the Lean LTS"
+TIE = ("A: every atomic segment of the real watcher/worker/Scheduler logged as a label + state snapshot, replayed by the Lean LTS "
+       "(the Scheduler's own containers observed in place, as its __init__ built them); D: the real Scheduler alone vs. the Lean "
+       "scheduler hand-over model after every spawn()/job end")
 THEOREMS = [
     ("Kopf.Props.C01", "Kopf.C01.stream_iff_worker"),
     ("Kopf.Props.C01", "Kopf.C01.closed_may_orphan_stream"),
@@ -77,6 +86,10 @@ THEOREMS = [
     ("Kopf.Props.C01", "Kopf.C01.no_arrival_when_closing"),
     ("Kopf.Props.C01", "Kopf.C01.keyOf_spec"),
     ("Kopf.Props.C01", "Kopf.C01.buggy_loses"),
+    ("Kopf.Props.C01", "Kopf.C01.sched_spawn_never_blocks"),
+    ("Kopf.Props.C01", "Kopf.C01.sched_free_slot_is_used"),
+    ("Kopf.Props.C01", "Kopf.C01.sched_blocked_put_is_forever"),
+    ("Kopf.Props.C01", "Kopf.C01.sched_bounded_queue_deadlock_witness"),
 ]
 # not counted: quiescent_run_complete (corollary), independent_spawn (unfolds canSpawn), and in Lemmas/C01_Frame.lean
 # limit_const, take_reads_own_component, finish_reads_own_component. `take` and `timeoutTake` are ONE transition of the
@@ -92,9 +105,14 @@ RULE = ("scripted watch streams of 1-6 objects (crowds: 12-40) (with/without uid
         "processor while other objects get events (sent on an absolute schedule: an event that the watcher takes late counts "
         "from when it was sent). Re-created objects (same name/namespace, new uid). A failing processor with events queued "
         "behind it and later events of other objects. In 12% of the scenarios a SECOND watcher (another resource, own stream, "
-        "often ending or cancelled while the first one is busy) runs in the same loop. Plus an exhaustive grid of identities through "
+        "often ending or cancelled while the first one is busy) runs in the same loop. The scheduler alone: the real "
+        "aiotasks.Scheduler(limit=None/1/2/3/5) with 6-40 adaptive operations (spawn a job / end a job that really runs), "
+        "spawn-heavy mixes up to 95%: tens of jobs pending beyond the limit; bursts of 2*limit+0..2 jobs first; non-trivial when "
+        "jobs wait under a limit. Plus an exhaustive grid of identities through "
         "the real get_uid vs the Lean keyOf (not counted in distinct_nontrivial).")
-TRUSTED = ["CPython asyncio (Queue, wait_for, timeouts, Condition, Task cancellation) — exercised, not modelled",
+TRUSTED = ["in the scheduler-alone runs 16 loop cycles after each operation are taken as 'settled' (the longest chain in the code "
+           "is done-callback -> cleaner -> spawner -> first step of the task: 5 cycles)",
+           "CPython asyncio (Queue, wait_for, timeouts, Condition, Task cancellation) — exercised, not modelled",
            "harness/props/sim_c01.py hook placement: each label is logged inside the atomic segment it names",
            "the actual order CPython gives to same-instant timers is not predicted: both orders are executed"]
 ASSUMPTIONS = ["the Kubernetes API never reorders events of one object (the scripted stream is the delivered order)",
@@ -160,6 +178,20 @@ def oracle(scn: dict, log: dict) -> list[tuple[str, dict]]:
         return bad
     if log["outcome"] == "deadlock":
         fail("stuck", f"nothing scheduled while the watcher has not finished: {log['error']}")
+        # O8 — "while the watch is alive none is dropped ... however event arrivals interleave with ... the worker
+        #      limit": the run is over for good (no timer, nothing ready), nobody cancelled the watcher and the stream
+        #      has not ended — the watch IS alive —, so every event the API has sent must have been processed. One
+        #      that never entered the processor is lost, whatever the limit: no other object is being processed.
+        if log["cancel_t"] is None and log["stream_end"] is None:
+            started = {c["seq"] for c in log["calls"]}
+            n_sent = len([i for i in scn["stream"] if "obj" in i])
+            busy = [c["seq"] for c in log["calls"] if c["end"] is None]
+            for d in log["delivered"]:
+                if d["seq"] not in started:
+                    fail("lost", f"object {d['obj']}: event {d['seq']} delivered at t={d['t']} was never handed to the processor: "
+                                 f"the watch is alive (not cancelled, the stream not ended) but since t={log['end_t']} nothing moves "
+                                 f"any more (processors still running: {busy}; worker_limit={scn['settings'].get('worker_limit')}; "
+                                 f"{n_sent - len(log['delivered'])} further events of the API were never even read from the stream)")
         return bad
     if log["outcome"] and log["outcome"].startswith(("error", "runtime-error")):
         fail("crash", f"watcher ended with {log['outcome']}")
@@ -852,6 +884,198 @@ def check_get_uid(ctx: Ctx) -> None:
         ctx.compare("get_uid vs keyOf", k, model, inp)
 
 
+# =================================================================================================
+# The scheduler on its own: the REAL `aiotasks.Scheduler` (built by its own __init__, nothing replaced) driven with
+# spawn() calls and ending jobs; tie: Lean `C01_Sched` (op `C01.sched`); oracle: from the property text.
+# =================================================================================================
+SETTLE = 16      # loop iterations after each operation (the longest chain: done-callback -> cleaner -> spawner -> task start)
+
+
+def run_sched(limit: Any, plan: dict) -> dict:
+    """`plan` = {"ops": [...]} replays recorded operations; {"seed": n, "n": m, "p_call": p} generates them ADAPTIVELY
+    (a job can only be ended while it really runs: read off the real run, which is deterministic)."""
+    import asyncio
+    import warnings
+    from kopf._cogs.aiokits import aiotasks
+    out: dict[str, Any] = {"limit": limit, "cap": None, "ops": [], "snaps": [], "started": [], "calls": 0, "left": None, "error": None}
+    rng = random.Random(plan.get("seed", 0))
+
+    async def main() -> None:
+        loop = asyncio.get_running_loop()
+        sched = aiotasks.Scheduler(limit=limit)
+        q = getattr(sched, "_pending_coros", None)
+        cond = getattr(sched, "_condition", None)
+        maxsize = getattr(q, "maxsize", 0)
+        out["cap"] = maxsize if isinstance(maxsize, int) and maxsize > 0 else None
+        futs: dict[int, asyncio.Future] = {}
+        running: list[int] = []
+        finished: list[int] = []
+        returned = [0]
+        callers = []
+
+        async def job(j: int) -> None:
+            out["started"].append(j)
+            running.append(j)
+            try:
+                await futs[j]
+            finally:
+                running.remove(j)
+                finished.append(j)
+
+        async def call(j: int) -> None:
+            await sched.spawn(job(j), name=f"job-{j}")
+            returned[0] += 1
+
+        async def settle() -> None:
+            for _ in range(SETTLE):
+                await asyncio.sleep(0)
+
+        def snap() -> list:
+            try:
+                return [q.qsize(), len(sched._running_tasks), bool(cond.locked()), returned[0]]
+            except Exception as e:  # noqa: BLE001
+                return ["unobservable", repr(e)]
+
+        ops = plan.get("ops")
+        n = len(ops) if ops is not None else plan["n"]
+        for i in range(n):
+            if ops is not None:
+                op = list(ops[i])
+            elif not running or rng.random() < plan.get("p_call", 0.6):
+                op = ["call", out["calls"]]
+            else:
+                op = ["done", rng.choice(sorted(running))]
+            if op[0] == "call":
+                futs[op[1]] = loop.create_future()
+                out["calls"] += 1
+                callers.append(asyncio.ensure_future(call(op[1])))
+            elif op[1] in running and not futs[op[1]].done():
+                futs[op[1]].set_result(None)
+            else:
+                out["error"] = f"operation #{i} {op}: that job is not running at this point"
+                break
+            await settle()
+            out["ops"].append(op)
+            out["snaps"].append(snap())
+        # the end: every job that runs is let go, until nothing changes any more
+        for _ in range(out["calls"] + 2):
+            for j in list(running):
+                if not futs[j].done():
+                    futs[j].set_result(None)
+            await settle()
+        out["left"] = {"never_started": [j for j in futs if j not in out["started"]], "final": snap(),
+                       "spawn_calls_not_returned": out["calls"] - returned[0]}
+        for c in callers:
+            c.cancel()
+        for f in futs.values():
+            if not f.done():
+                f.set_result(None)
+        await settle()
+        try:
+            await asyncio.wait_for(sched.close(), 0.5)
+        except BaseException:  # noqa: BLE001
+            pass
+
+    with warnings.catch_warnings():
+        warnings.simplefilter("ignore", RuntimeWarning)
+        loop = asyncio.new_event_loop()
+        try:
+            loop.run_until_complete(asyncio.wait_for(main(), 20))
+        except BaseException as e:  # noqa: BLE001
+            out["error"] = out["error"] or f"{type(e).__name__}: {e}"
+        finally:
+            try:
+                for t in asyncio.all_tasks(loop):
+                    t._log_destroy_pending = False  # type: ignore[attr-defined]
+                    t.cancel()
+                loop.run_until_complete(asyncio.sleep(0))
+                loop.close()
+            except BaseException:  # noqa: BLE001
+                pass
+            import gc
+            gc.collect()
+    return out
+
+
+def oracle_sched(res: dict) -> list[tuple[str, dict]]:
+    """From the property text: objects wait for a free worker slot and for nothing else; none is dropped; the limit holds."""
+    bad: list[tuple[str, dict]] = []
+
+    def fail(check: str, what: str) -> None:
+        bad.append((what, {"site": "aiotasks.Scheduler", "check": check}))
+
+    limit = res["limit"]
+    calls = 0
+    for i, (op, sn) in enumerate(zip(res["ops"], res["snaps"])):
+        calls += 1 if op[0] == "call" else 0
+        if sn[0] == "unobservable":
+            continue
+        pend, run, _locked, returned = sn
+        if limit is not None and run > limit:
+            fail("limit", f"after operation #{i} {op}: {run} worker tasks at once, worker_limit={limit}")
+        waiting = pend + (calls - returned)
+        if waiting > 0 and (limit is None or run < limit):
+            fail("stuck", f"after operation #{i} {op} (and {SETTLE} loop cycles): {waiting} workers wait to be started ({pend} pending, "
+                          f"{calls - returned} still inside spawn()) although only {run} of worker_limit={limit} slots are taken")
+            break
+        if returned < calls and run >= 1:
+            fail("late", f"after operation #{i} {op}: spawn() has not returned for {calls - returned} worker(s) while {run} worker(s) "
+                         f"of other objects run: the multiplexer is held up, events of the running objects wait for the others")
+            break
+    if res["started"] != sorted(res["started"]):
+        fail("fifo", f"workers were started in the order {res['started']}, not in the order they were handed to spawn()")
+    left = res["left"]
+    if left is not None and (left["never_started"] or left["spawn_calls_not_returned"]):
+        fail("lost", f"with every running worker let go one after another, workers {left['never_started']} were never started "
+                     f"({left['spawn_calls_not_returned']} spawn() calls never returned); final [pending, running, lock held, returned] = {left['final']}")
+    if res["error"]:
+        fail("crash", f"the scheduler run broke: {res['error']}")
+    return bad
+
+
+def check_scheduler(ctx: Ctx, plans: list[tuple[Any, dict]], source: str) -> None:
+    runs = [run_sched(limit, plan) for limit, plan in plans]
+    reqs = []
+    for res in runs:
+        rp = {"sched": {"limit": res["limit"], "ops": res["ops"]}}
+        n_wait = max([sn[0] for sn in res["snaps"] if sn[0] != "unobservable"] or [0])
+        saturated = res["limit"] is not None and n_wait > 0
+        ctx.case(key="sched:" + json.dumps([res["limit"], res["ops"]]), nontrivial=saturated)
+        ctx.count("source", source + " (scheduler alone)")
+        ctx.count("scheduler alone: worker_limit", res["limit"])
+        ctx.count("scheduler alone: most workers pending at once", min(n_wait, 20))
+        if res["limit"] is not None and n_wait > res["limit"]:
+            ctx.count("schedule features", "more workers pending than the limit (scheduler alone)")
+        for what, sig in oracle_sched(res):
+            ctx.oracle_fail(what, rp, sig)
+        if res["cap"] is not None:
+            ctx.tie_fail(f"hypothesis of sched_spawn_never_blocks / sched_free_slot_is_used does not hold for the real Scheduler: its "
+                         f"pending queue is bounded (maxsize={res['cap']}, limit={res['limit']})", rp)
+        reqs.append(["C01.sched", {"cap": res["cap"], "limit": res["limit"]}, [[op, sn] for op, sn in zip(res["ops"], res["snaps"])]])
+    try:
+        outs = _ask(ctx.driver, reqs)
+    except leanio.LeanError as e:
+        ctx.tie_fail(f"Lean driver failed on C01.sched: {e}", {"log": e.log})
+        return
+    for res, out in zip(runs, outs):
+        ctx.tie_comparisons += 1
+        okay = isinstance(out, list) and len(out) == 2 and out[0] == "ok" and out[1].get("accepted") is True
+        if okay:
+            ctx.traces += 1
+        else:
+            ctx.tie_fail(f"the scheduler model rejects the real Scheduler's behaviour: {out!r}",
+                         {"sched": {"limit": res["limit"], "ops": res["ops"]}, "snaps": res["snaps"], "answer": out})
+
+
+def sched_plans(rng: random.Random, n: int) -> list[tuple[Any, dict]]:
+    plans: list[tuple[Any, dict]] = []
+    for i in range(n):
+        limit = rng.choice([None, 1, 1, 2, 2, 3, 5])
+        plans.append((limit, {"seed": rng.randrange(1 << 30), "n": rng.choice([6, 12, 25, 40]),
+                              "p_call": rng.choice([0.5, 0.6, 0.8, 0.95])}))
+    return plans
+
+
 def run_limit_zero(ctx: Ctx, name: str, data: dict) -> None:
     """Replays the Lean witness `limit_zero_starves` on the real watcher (an observation about kopf, see ASSUMPTIONS):
     with worker_limit=0 nothing is processed and the shutdown never completes. The trace up to the hang must be
@@ -902,6 +1126,11 @@ def run(ctx: Ctx) -> None:
         ctx.traces += len([pt for r in corpus_results for pt in r["parts"] if pt["request"] is not None])
     except leanio.LeanError as e:
         ctx.tie_fail(f"Lean driver failed: {e}", {"log": e.log})
+    # ---- the scheduler alone: bursts beyond the limit first, then generated sequences --------------------------
+    bursts = [(lim, {"ops": [["call", j] for j in range(2 * lim + extra)] + [["done", 0]]})
+              for lim in (1, 2, 3) for extra in (0, 1, 2)]
+    check_scheduler(ctx, bursts, "corpus")
+    check_scheduler(ctx, sched_plans(random.Random(f"C01-sched-{ctx.seed}"), ctx.budget(120, 1500)), "generated")
     # ---- generated ----------------------------------------------------------------------------------
     n = ctx.budget(200, 6700)          # base scenarios; × policies = runs (quick 400, thorough ≈ 20 000)
     if ctx.tier == "thorough":
@@ -985,6 +1214,12 @@ def search(ctx: Ctx, broken: list) -> None:
 
 def replay(ctx: Ctx, data: dict) -> None:
     rp = data.get("replay") or data.get("first") or {}
+    if rp.get("sched") is not None:
+        res = run_sched(rp["sched"]["limit"], {"ops": rp["sched"]["ops"]})
+        for what, sig in oracle_sched(res):
+            ctx.oracle_fail(what, rp, sig)
+            print(f"replay: oracle: {what}")
+        return
     scn = rp.get("scenario")
     if scn is None:
         raise RuntimeError("replay file has no scenario")
